@@ -41,10 +41,35 @@ HETERO = ["{int: 1, str: 2}", "{int: 1, str: 3, float: 2}", "{None: 1, 'a': 2}",
 TABLE_KEYS = ["int", "str", "float", "None", "1", "2", "'a'", "'b'", "(1, 2)", "len"]
 REG_TYPES = ["collections.OrderedDict(a=%d)", "collections.defaultdict(int, a=%d)", "dict(a=%d)", "collections.Counter(a=%d)"]
 # two helper modules written next to every generated module (see c16.py): same function/class names, different behaviour
+# `Moody` is a value that refuses `==` (like a numpy array in a boolean context): _livepatch__function must treat a closure cell
+# holding one as "not the same as before" instead of letting the exception escape
+_MOODY = ("class Moody:\n    def __init__(self, v=0):\n        self.v = v\n    def __eq__(self, other):\n"
+          "        raise ValueError('Moody objects cannot be compared')\n    __hash__ = None\n"
+          "    def __repr__(self):\n        return 'Moody(%r)' % (self.v,)\n")
 EXT_SOURCES = {
-    "c16ext_a": "def ext(a=1):\n    return a + 100\nclass Ext:\n    def m(self):\n        return 100\n",
-    "c16ext_b": "def ext(a=1):\n    return a + 200\nclass Ext:\n    def m(self):\n        return 200\n",
+    "c16ext_a": "def ext(a=1):\n    return a + 100\nclass Ext:\n    def m(self):\n        return 100\n" + _MOODY,
+    "c16ext_b": "def ext(a=1):\n    return a + 200\nclass Ext:\n    def m(self):\n        return 200\n" + _MOODY,
 }
+# submodules of the generated module when it is a *package* (case["pkg"]): written next to __init__.py by the harness
+PKG_SUBMODULES = {
+    "sub_a": "val = 10\ndef subf(a=1):\n    return a + 10\n",
+    "sub_b": "val = 20\ndef subf(a=1):\n    return a + 20\n",
+    "late": "val = 30\n",
+}
+REL_IMPORTS = ["from . import sub_a", "from . import sub_b", "from .sub_a import subf", "from .sub_b import subf",
+               "from .sub_a import val as sval", "from . import sub_a as sub"]
+# __livepatch__ hooks that are *transparent*: they do what the standard livepatch does (call do_livepatch() and return its
+# result, or call livepatch(..., heed_hook=False) as the module docstring describes), with the parameter conventions that
+# livepatch() documents: parameters matched by name, **kwargs, a first parameter of any name meaning `old`, defaulted extras
+HOOKS = {
+    "plain": ("old, new, do_livepatch", "return do_livepatch()"),
+    "varkw": ("do_livepatch, **kw", "return do_livepatch()"),
+    "first": ("prev, do_livepatch", "return do_livepatch()"),
+    "extra": ("old, do_livepatch, extra=None", "return do_livepatch()"),
+    "order": ("new, do_livepatch, old", "return do_livepatch()"),
+    "noheed": ("old, new, modname, cache", "from pyflyby import livepatch\n    return livepatch(old, new, modname=modname, cache=cache, heed_hook=False)"),
+}
+HOOK_NAMES = ["__livepatch__", "__livepatch__", "__reload_update__"]
 EXT_IMPORTS = ["from c16ext_a import ext", "from c16ext_b import ext", "from c16ext_a import Ext", "from c16ext_b import Ext",
                "import os", "import json as ext"]
 
@@ -106,6 +131,12 @@ def gen_item(rng, items, name=None):
         if q < 0.39:
             # variable annotation: creates / extends the module's __annotations__
             return dict(k="data", name=rng.choice(DN + ["W"]), val=rng.choice(["1", "2", "3"]), ann=rng.choice(["int", "object"]))
+        if q < 0.42:
+            # closure over a value whose == raises
+            return dict(k="moody", name="mo", v=rng.choice(INTS), c=rng.choice(INTS))
+        if q < 0.445:
+            # module-level __livepatch__ hook (transparent)
+            return dict(k="modhook", name=rng.choice(HOOK_NAMES), hook=rng.choice(["plain", "varkw", "first", "extra", "order"]))
     if r < 0.04 and name is None:
         st = rng.choice(EXT_IMPORTS)
         return dict(k="import", stmt=st, name=st.split()[-1])
@@ -121,13 +152,16 @@ def gen_item(rng, items, name=None):
                   deco=rng.choice(decos) if decos and rng.random() < 0.5 else None,
                   writes=rng.choice(datas) if datas and rng.random() < 0.08 else None,
                   kw=rng.choice(INTS) if rng.random() < 0.12 else None)
+        if rng.random() < 0.08:
+            it["hook"] = rng.choice(sorted(HOOKS))
+            it["hookname"] = rng.choice(HOOK_NAMES)
         it["calls"] = [c for c in it["calls"] if c != it["name"]]
         return it
     if r < 0.46:
         return dict(k="deco", name=name or "deco", c=rng.choice(INTS), cell=rng.random() < 0.5)
     if r < 0.54:
         return dict(k="factory", name=name or "mk", c=rng.choice(INTS), ncells=rng.choice([1, 1, 2]),
-                    inner=rng.choice(["inner", "inner", "inner2"]))
+                    inner=rng.choice(["inner", "inner", "inner2"]), pn=rng.choice(["p", "p", "r"]))
     if r < 0.62 and factories:
         return dict(k="closure", name=name or rng.choice(["cl", "cl2"]), factory=rng.choice(factories),
                     args=[rng.choice(INTS), rng.choice(INTS)])
@@ -146,8 +180,8 @@ def gen_item(rng, items, name=None):
                 bases.append(b2)
         base_items = [cur[b] for b in bases]
         slots = None
-        if rng.random() < 0.15 and all(b.get("slots") is not None or True for b in base_items):
-            slots = ["v"] if not bases else ["w"]
+        if rng.random() < 0.2 and all(b.get("slots") is not None or True for b in base_items):
+            slots = rng.choice([["v"], ["v", "u"], ["v", "u"]]) if not bases else ["w"]
         methods = []
         used = set()
         for _ in range(rng.choice([0, 1, 1, 2, 3])):
@@ -162,22 +196,28 @@ def gen_item(rng, items, name=None):
             methods.append(dict(name=mn, kind=kind, c=rng.choice(INTS), super=sup,
                                 cc=(kind == "plain" and rng.random() < 0.3)))
         init = rng.random() < 0.5 and not bases
-        if slots == ["v"]:
+        if slots and "v" in slots:
             init = True
         metas = [n for n, it in cur.items() if it["k"] == "metacls"]
         meta = rng.choice([None, None, None, "abc", "abc", "enum"] + (["custom"] * 5 if metas else []))
         at = {"K": rng.choice(["1", "2", "'q'"])} if rng.random() < 0.3 else {}
         if rng.random() < 0.12:
             at["T"] = rng.choice(HETERO)
+        hook = None
+        if rng.random() < 0.09:
+            # "inst" is the form the module docstring of _livepatch.py shows: an instance method `__livepatch__(self, old, ...)`
+            hook = rng.choice(["plain", "varkw", "first", "extra", "order", "cm", "cm", "inst"])
         return dict(k="class", name=nm, bases=bases, slots=slots, attrs=at, meta=meta, metaname=metas[0] if metas else None,
-                    init=init, methods=methods, doc=rng.choice([None, None, "cdoc"]))
+                    init=init, methods=methods, doc=rng.choice([None, None, "cdoc"]), hook=hook,
+                    hookname=rng.choice(HOOK_NAMES))
     if r < 0.93 and classes:
         c = rng.choice(classes)
         ci = cur[c]
         extra = {}
         if ci.get("slots") is None and not any(cur.get(b, {}).get("slots") for b in ci["bases"]) and rng.random() < 0.3:
             extra = {"e": rng.choice(["1", "2"])}
-        return dict(k="inst", name=name or rng.choice(IN), cls=c, arg=rng.choice(INTS), extra=extra)
+        sset = {sn: rng.choice(["4", "5", "'z'"]) for sn in (ci.get("slots") or []) if sn != "v" and rng.random() < 0.5}
+        return dict(k="inst", name=name or rng.choice(IN), cls=c, arg=rng.choice(INTS), extra=extra, sset=sset)
     if r < 0.96 and (funcs or classes):
         return dict(k="alias", name=name or "al", target=rng.choice(funcs + classes))
     if funcs or classes:
@@ -231,9 +271,9 @@ def fixup(items):
                 if m.get("super"):
                     m["super"] = m["kind"] == "plain" and any(
                         any(mm["name"] == m["name"] and mm["kind"] == "plain" for mm in b["methods"]) for b in bi)
-            if it.get("slots") == ["v"] and it["bases"]:
+            if it.get("slots") and "v" in it["slots"] and it["bases"]:
                 it["slots"] = ["w"]
-            if it.get("slots") == ["v"]:
+            if it.get("slots") and "v" in it["slots"]:
                 it["init"] = True
             # metaclasses: no class derives from an Enum with members; one metaclass per hierarchy
             it["bases"] = [b for b in it["bases"] if cur[b].get("meta") != "enum"]
@@ -242,7 +282,7 @@ def fixup(items):
             if it.get("meta") and any(cur[b].get("meta") for b in it["bases"]):
                 it["meta"] = None
             if it.get("meta") == "enum":
-                it["bases"], it["slots"], it["init"], it["attrs"] = [], None, False, {}
+                it["bases"], it["slots"], it["init"], it["attrs"], it["hook"] = [], None, False, {}, None
                 for m in it["methods"]:
                     m["super"] = False
         elif k == "inst":
@@ -252,10 +292,12 @@ def fixup(items):
             hasdict = ci.get("slots") is None or any(cur[b].get("slots") is None for b in ci["bases"] if b in cur)
             if not hasdict:
                 it["extra"] = {}
+            it["sset"] = {sn: v for sn, v in (it.get("sset") or {}).items() if sn in (ci.get("slots") or []) and sn != "v"}
             it["_arg_ok"] = _class_takes_arg(cur, it["cls"])
             it["_enum"] = ci.get("meta") == "enum"
             if it["_enum"]:
                 it["extra"] = {}
+                it["sset"] = {}
         elif k == "bmc":
             ii = cur.get(it["inst"])
             if not (ii and ii["k"] == "inst" and ii["cls"] in cur and cur[ii["cls"]]["k"] == "class"):
@@ -321,7 +363,17 @@ def render_item(it):
         out = ["\n".join(lines)]
         for a, v in sorted(it.get("attrs", {}).items()):
             out.append("%s.%s = %s" % (n, a, v))
+        if it.get("hook"):
+            sig, body = HOOKS[it["hook"]]
+            out.append("def _hk_%s(%s):\n    %s" % (n, sig, body))
+            out.append("%s.%s = _hk_%s" % (n, it.get("hookname") or "__livepatch__", n))
         return out
+    if k == "modhook":
+        sig, body = HOOKS[it["hook"]]
+        return ["def %s(%s):\n    %s" % (n, sig, body)]
+    if k == "moody":
+        return ["def _mk_%s():\n    reg = c16ext_a.Moody(%d)\n    def get(k=1):\n        return reg.v + k + %d\n    return get" % (n, it["v"], it["c"]),
+                "%s = _mk_%s()" % (n, n)]
     if k == "deco":
         if it["cell"]:
             body = ("def %s(fn):\n    kk = %d\n    def wrapper(*a):\n        return fn(*a) + kk\n    return wrapper"
@@ -331,10 +383,11 @@ def render_item(it):
         return [body]
     if k == "factory":
         inner = it["inner"]
+        pn = it.get("pn") or "p"        # the name of the captured variable: renaming it changes co_freevars only
         if it["ncells"] == 2:
-            body = "def %s(p, q=0):\n    def %s(x=1):\n        return x*p + q + %d\n    return %s" % (n, inner, it["c"], inner)
+            body = "def %s(%s, q=0):\n    def %s(x=1):\n        return x*%s + q + %d\n    return %s" % (n, pn, inner, pn, it["c"], inner)
         else:
-            body = "def %s(p, q=0):\n    def %s(x=1):\n        return x*p + %d\n    return %s" % (n, inner, it["c"], inner)
+            body = "def %s(%s, q=0):\n    def %s(x=1):\n        return x*%s + %d\n    return %s" % (n, pn, inner, pn, it["c"], inner)
         return [body]
     if k == "closure":
         return ["%s = %s(%s)" % (n, it["factory"], ", ".join(str(a) for a in it["args"]))]
@@ -389,6 +442,15 @@ def render_item(it):
                 lines.append("    @classmethod\n    def %s(cls, a=1):\n        return (cls.__name__, a + %d)" % (mn, c))
             else:
                 lines.append("    @property\n    def %s(self):\n        return %d" % (mn, c))
+        if it.get("hook"):
+            hn = it.get("hookname") or "__livepatch__"
+            if it["hook"] == "cm":
+                lines.append("    @classmethod\n    def %s(cls, old, new, do_livepatch):\n        return do_livepatch()" % hn)
+            elif it["hook"] == "inst":
+                lines.append("    def %s(self, old, do_livepatch):\n        return do_livepatch()" % hn)
+            else:
+                sig, body = HOOKS[it["hook"]]
+                lines.append("    @staticmethod\n    def %s(%s):\n        %s" % (hn, sig, body.replace("\n    ", "\n        ")))
         if len(lines) == 1:
             lines.append("    pass")
         return ["\n".join(lines)]
@@ -397,6 +459,8 @@ def render_item(it):
             return ["%s = %s.RED" % (n, it["cls"])]
         out = ["%s = %s(%s)" % (n, it["cls"], it["arg"] if it.get("_arg_ok") and it["arg"] is not None else "")]
         for a, v in sorted(it.get("extra", {}).items()):
+            out.append("%s.%s = %s" % (n, a, v))
+        for a, v in sorted((it.get("sset") or {}).items()):
             out.append("%s.%s = %s" % (n, a, v))
         return out
     if k == "alias":
@@ -420,7 +484,13 @@ def render(items):
     text = "\n".join(out)
     if any(x in text for x in ("abc.", "enum.", "collections.", "functools.")):
         out.insert(0, "import abc, enum, collections, functools")
+    if "c16ext_a." in text:
+        out.insert(0, "import c16ext_a")
     return out
+
+
+def has_hooks(stmts):
+    return any("__livepatch__" in st or "__reload_update__" in st for st in stmts)
 
 
 INJECT = {
@@ -451,6 +521,22 @@ def gen_version(rng, size):
     for _ in range(size):
         items.append(gen_item(rng, items))
     return fixup(items)
+
+
+def _rename_scope(items, idx, new):
+    """rename a decorator / closure factory and every later reference to it: the functions it produces keep their own
+    name, closure shape and the module-level names bound to them (only their __qualname__ changes)"""
+    old = items[idx]["name"]
+    if any(it["name"] == new for it in items):
+        return
+    items[idx]["name"] = new
+    for it in items[idx + 1:]:
+        if it["name"] == old and it["k"] in ("deco", "factory"):
+            break
+        if it["k"] == "func" and it.get("deco") == old:
+            it["deco"] = new
+        if it["k"] == "closure" and it.get("factory") == old:
+            it["factory"] = new
 
 
 def mutate(rng, items):
@@ -504,6 +590,16 @@ def mutate(rng, items):
                     it["ty"] = rng.choice(REG_TYPES)
             elif k == "bmc":
                 it["c"] = rng.choice(INTS)
+            elif k == "moody":
+                it[rng.choice(["v", "c"])] = rng.choice(INTS)
+            elif k == "modhook":
+                it["hook"] = rng.choice(["plain", "varkw", "first", "extra", "order"])
+            elif k == "func" and rng.random() < 0.06:
+                it["hook"] = rng.choice([None] + sorted(HOOKS))
+                it["hookname"] = rng.choice(HOOK_NAMES)
+            elif k == "class" and rng.random() < 0.06:
+                it["hook"] = rng.choice([None, "plain", "varkw", "first", "extra", "order", "cm"])
+                it["hookname"] = rng.choice(HOOK_NAMES)
             elif k == "func":
                 w = rng.random()
                 if w < 0.4:
@@ -524,6 +620,8 @@ def mutate(rng, items):
                 else:
                     datas = _defined(items, idx, ("data",))
                     it["reads"] = [rng.choice(datas)] if datas else []
+            elif k in ("deco", "factory") and rng.random() < 0.2:
+                _rename_scope(items, idx, {"deco": "deco2", "deco2": "deco", "mk": "mk2", "mk2": "mk"}.get(it["name"], it["name"] + "2"))
             elif k == "deco":
                 if rng.random() < 0.6:
                     it["c"] = rng.choice(INTS)
@@ -533,10 +631,12 @@ def mutate(rng, items):
                 w = rng.random()
                 if w < 0.5:
                     it["c"] = rng.choice(INTS)
-                elif w < 0.8:
+                elif w < 0.65:
                     it["ncells"] = 3 - it["ncells"]
-                else:
+                elif w < 0.75:
                     it["inner"] = rng.choice(["inner", "inner2"])
+                else:
+                    it["pn"] = "r" if (it.get("pn") or "p") == "p" else "p"
             elif k == "closure":
                 it["args"] = [rng.choice(INTS), rng.choice(INTS)]
             elif k == "hof":
@@ -582,10 +682,19 @@ def mutate(rng, items):
                     it["doc"] = rng.choice([None, "cdoc", "cdoc2"])
             elif k == "inst":
                 w = rng.random()
-                if w < 0.5:
+                if w < 0.4:
                     it["arg"] = rng.choice(INTS)
-                elif w < 0.8:
+                elif w < 0.55:
                     it["extra"] = rng.choice([{}, {"e": "1"}, {"e": "2"}, {"e2": "5"}])
+                elif w < 0.85:
+                    # which slots are set on the instance (fixup drops the ones the class does not declare)
+                    ss = dict(it.get("sset") or {})
+                    sn = rng.choice(["u", "u", "w"])
+                    if sn in ss and rng.random() < 0.5:
+                        del ss[sn]
+                    else:
+                        ss[sn] = rng.choice(["4", "5", "'z'"])
+                    it["sset"] = ss
                 else:
                     classes = _defined(items, idx, ("class",))
                     if classes:
@@ -622,6 +731,21 @@ def gen_case(rng, tier="quick"):
         tries += 1
     new = mutate(rng, old)
     case = dict(old=render(old), new=render(new), fail=None, via=rng.choice(["module", "module", "name", "path"]))
+    # the other documented ways to name what is to be reloaded: xreload() (every modified module), xreload([m]),
+    # xreload("name.py"), xreload("/path/name.pyc")
+    u = rng.random()
+    if u < 0.16:
+        case["via"] = ["all", "list", "basename", "pyc"][int(u / 0.04)]
+    elif u < 0.20:
+        case["via"] = "module"
+        case["unreg"] = True          # the module object is alive but no longer registered in sys.modules
+    if rng.random() < 0.10:
+        # the module is a package (name/__init__.py with submodules, see PKG_SUBMODULES); relative imports
+        case["pkg"] = True
+        if rng.random() < 0.6:
+            case["old"].insert(rng.randint(0, len(case["old"])), rng.choice(REL_IMPORTS))
+        if rng.random() < 0.8:
+            case["new"].insert(rng.randint(0, len(case["new"])), rng.choice(REL_IMPORTS))
     # how the file's mtime of the tested edit relates to the module's load time (set with os.utime by the harness):
     # "newer" | "equal" (only meaningful after a preceding reload: loadtime = mtime of the previous edit) | "older"
     r = rng.random()
@@ -635,4 +759,6 @@ def gen_case(rng, tier="quick"):
     if rng.random() < 0.35:
         case["fail"] = dict(at=rng.randint(0, len(case["new"])), kind=rng.choice(FAIL_KINDS))
     case["items"] = dict(old=old, new=new)
+    if any(has_hooks(case.get(k) or []) for k in ("old", "new", "pre", "pre0")):
+        case["hooks"] = "transparent"     # every generated hook does what the standard livepatch does (see HOOKS)
     return case
